@@ -194,3 +194,16 @@ def run(ctx, model_ok):
         if dis:
             ctx.cov["model_impl_disagreements"] += len(dis)
             tie.report_disagreements(ctx, dis, "bindable_controls")
+
+    # the predeclared name `print` is a declaration of the outermost scope like any other (it has no position in the file)
+    pre = ["print := 1\n", "print = 1\nprint := 2\n", "{\n    print := 1\n}\nprint(2)\n", "fn print() {\n}\n",
+           "[print] := [1]\n", "for [print, v] in [1] {\n}\nprint(3)\n", "fn f(print) {\n    return print\n}\nprint(f(4))\n",
+           "x := 1\nprint = x\nprint := 2\n", "print += 1\n", "{\n    print := 1\n    print := 2\n}\n"]
+    impl, dis = tie.run(ctx, pre, "predeclared_print", model_ok, project=tie.proj_full)
+    for src, r in zip(pre, impl):
+        ctx.nontrivial(("predeclared", src[:20], r["status"]))
+        ok = r["status"] in ("0", "103") and (r["status"] == "0" or re.match(r"t\.sd:\d+:\d+: ", r["stderr"]))
+        if not ok:
+            ctx.violation("declaring / assigning the predeclared name `print`: not a located diagnostic or success", src, {"cli": core.run_cli(src)})
+    tie.report_disagreements(ctx, dis, "predeclared_print")
+
